@@ -13,6 +13,7 @@ import Driver.StorageOps
 import Driver.PmsOps
 import Driver.BusOps
 import Driver.ElectricOps
+import Driver.ShaftOps
 open Lean Driver
 
 def dispatch (op : String) (j : Json) : Except String Json :=
@@ -23,6 +24,7 @@ def dispatch (op : String) (j : Json) : Except String Json :=
   | "pms" => pmsOp op j
   | "bus" => busOp op j
   | "electric" => electricOp op j
+  | "shaft" => shaftOp op j
   | _ => .error s!"unknown op family in '{op}'"
 
 def handle (line : String) : String :=
